@@ -129,6 +129,8 @@ pub fn gen_init(rng: &mut Rng) -> Init {
 }
 
 fn dt(rng: &mut Rng) -> (i128, i128) {
+    // a time source whose monotonic reading steps back (the code has branches for it: a mock or a broken clock)
+    if rng.chance(1, 20) { return (1_000_000, -2 * S); }
     match rng.below(6) {
         0 => (0, 0),
         1 => (250_000_000, 250_000_000),
@@ -664,7 +666,7 @@ pub fn run_ctl(o: &Opts, rng: &mut Rng) -> Sink {
     let n = if o.thorough { 600 } else { 60 };
     for k in 0..n {
         let seed = rng.next();
-        let kind = k % 2;
+        let kind = k % 3;
         let res = std::panic::catch_unwind(std::panic::AssertUnwindSafe(|| -> (String, String) {
             let mut r = Rng::new(seed);
             let mut init = gen_init(&mut r);
@@ -706,6 +708,35 @@ pub fn run_ctl(o: &Opts, rng: &mut Rng) -> Sink {
                 let fut = async move { h.start_update_check(opts).await };
                 let out = match fut.now_or_never() { Some(Err(_)) => "gone", Some(Ok(_)) => "answered", None => "hangs" };
                 (format!("gone after={}", before), out.to_string())
+            } else if kind == 2 {
+                // gone while a request is pending: the request has been sent (the machine is waiting, or in the middle of a
+                // check, and has not answered yet) when the machine is dropped — the caller must get the gone error, not hang
+                let before = r.below(nunits as u64) as usize;
+                for _ in 0..before { runner.run_unit(); }
+                let midcheck = r.chance(1, 2);
+                while runner.poll_stream() {}
+                if midcheck {
+                    // fire the timers of the outer wait and let the machine run into its first exchange
+                    let steps: Vec<Step> = std::mem::take(&mut hub.lock().unwrap().env.wake);
+                    for s in steps { if let Step::Fire(i) = s { let mut h = hub.lock().unwrap(); if let Some(&g) = h.timers.get(i) { h.release(g); } } while runner.poll_stream() {} }
+                } else { while runner.poll_stream() {} }
+                let in_flight = hub.lock().unwrap().http_waiting.is_some();
+                runner.submit_ctl(7, r.chance(1, 2));
+                let answered_early = !runner.replies.is_empty();
+                let Runner { stream, handle, mut ctls, .. } = runner;
+                drop(stream);
+                drop(handle);
+                let waker = std::task::Waker::from(Arc::new(Flag(AtomicBool::new(false))));
+                let mut cx = std::task::Context::from_waker(&waker);
+                let out = if answered_early { "answered-before-drop".to_string() } else {
+                    match ctls.pop().map(|mut c| c.fut.as_mut().poll(&mut cx)) {
+                        Some(std::task::Poll::Ready(Err(_))) => "gone".to_string(),
+                        Some(std::task::Poll::Ready(Ok(_))) => "answered".to_string(),
+                        Some(std::task::Poll::Pending) => "hangs".to_string(),
+                        None => "no-request".to_string(),
+                    }
+                };
+                (format!("gone pending after={} midcheck={}", before, in_flight as u8), out)
             } else {
                 // dropped handles: scheduled operation continues on timers alone
                 runner.handle = None;
